@@ -230,7 +230,7 @@ def _chunk(sub, cases):
 
 def run(ctx):
     env.init()
-    consts = ({"NEsc": 4, "NFid": 3, "NRef": 3, "NPath": 1, "Full": "FALSE"} if ctx.quick else
+    consts = ({"NEsc": 5, "NFid": 4, "NRef": 4, "NPath": 1, "Full": "FALSE"} if ctx.quick else
               {"NEsc": 5, "NFid": 5, "NRef": 5, "NPath": 2, "Full": "TRUE"})
     cases = table.generate(ctx, "GitIdsGen", consts, invariants=("LawsHoldOnSpec", "CodedDeviatesExactly"),
                            witnesses=("WitnessUrlRef",))
